@@ -296,7 +296,7 @@ pub fn av1_headers(full: bool) -> Vec<SeqHdr> {
     v
 }
 
-const LAYOUTS: usize = 6;
+const LAYOUTS: usize = 9;
 
 /// (frame bytes, the sequence-header OBU exactly as submitted)
 fn av1_layout(h: &SeqHdr, layout: usize) -> (Vec<u8>, Vec<u8>) {
@@ -325,9 +325,27 @@ fn av1_layout(h: &SeqHdr, layout: usize) -> (Vec<u8>, Vec<u8>) {
             let s = obu(1, true, false, &p);
             (s.clone(), s)
         }
-        _ => {
+        5 => {
             let s = obu(1, false, true, &p);
             (s.clone(), s)
+        }
+        6 => {
+            // a 200-byte padding OBU first: its size needs a two-byte LEB128
+            let s = obu(1, false, true, &p);
+            ([td, obu(15, false, true, &[0x5a; 200]), s.clone(), frame_obu].concat(), s)
+        }
+        7 => {
+            // the sequence header's own size written as a (legal) non-minimal two-byte LEB128
+            let mut s = vec![(1 << 3) | 2, (p.len() as u8 & 0x7f) | 0x80, 0x00];
+            s.extend_from_slice(&p);
+            ([td, s.clone(), frame_obu].concat(), s)
+        }
+        _ => {
+            // a metadata OBU with a three-byte non-minimal size and an extension byte first
+            let mut md = vec![(5 << 3) | 4 | 2, 0x00, 0x83, 0x80, 0x00, 1, 2, 3];
+            let s = obu(1, false, true, &p);
+            md.extend_from_slice(&td);
+            ([md, s.clone(), frame_obu].concat(), s)
         }
     }
 }
